@@ -897,15 +897,6 @@ def _sampling(rep, prog, rot, pm):
     whiles = [n for n in loops_ if not any(m is not n and m in loops_ for m in astu.walk(n['body']))]
     if len(whiles) != 2:
         raise AnalysisBroken('expected 2 sampling loops in _rotate_event_, found %d' % len(whiles))
-    for w, mode in zip(whiles, ('target', 'selection')):
-        c = astu.strip_casts(w['c']) if w.get('c') is not None else None
-        forever = c is None or (c['k'] == 'Bool' and c['v']) or astu.num_value(c) == 1
-        rep.add('SAMPLING', mode + ':only-accepted-samples-leave', where(rot, w.get('l')), 'the rejection loop has no exit but its accepting '
-                '`break`s (loop condition is constant true): a rejected direction can never be used', forever,
-                None if forever else 'the loop also ends when `%s` fails: the last rejected sample is then used' % astu.src(c))
-    a, b = (_norm(w['body']) for w in whiles)
-    rep.add('SAMPLING', 'siblings', where(rot, whiles[1].get('l')), 'the target-mode and selection-mode sampling loops are the '
-            'same statements', a == b, None if a == b else _first_diff(a, b))
     # aperture bound and window limits, by role (through locals and cached data members)
     R = _Resolver(prog, rot, L, pm)
     bounds = set()
@@ -942,39 +933,7 @@ def _sampling(rep, prog, rot, pm):
             'atan2(hypot(tan _cone_angle_, tan _cone_angle2_), 1) (the corner of the window) when a window is given' % bounds.pop(),
             okA, detail)
     for w, mode in zip(whiles, ('target', 'selection')):
-        ifs = [n for n in astu.walk(w['body']) if n['k'] == 'If' and any(x['k'] == 'Break' for x in astu.walk(n['t']))
-               and any(x['k'] == 'Call' and x['callee']['qn'] in ('std::abs', 'fabs', 'std::fabs') for x in astu.walk(n['c']))]
-        ok = False
-        detail = None
-        if len(ifs) == 1:
-            c = ifs[0]['c']
-            conj = _conjuncts(c)
-            got = set()
-            for t in conj:
-                t = astu.strip_casts(t)
-                if t['k'] == 'Bin' and t['op'] in ('<', '<='):
-                    l = astu.strip_casts(t['a'])
-                    if l['k'] == 'Call' and l['callee']['qn'] in ('std::abs', 'fabs', 'std::fabs'):
-                        got.add((astu.src(l['args'][0]), astu.src(t['b'])))
-            lims = {}
-            for t in conj:
-                t = astu.strip_casts(t)
-                if t['k'] == 'Bin' and t['op'] in ('<', '<='):
-                    l = astu.strip_casts(t['a'])
-                    if l['k'] == 'Call' and l['callee']['qn'] in ('std::abs', 'fabs', 'std::fabs'):
-                        lims[astu.src(l['args'][0])] = R.tan_of(t['b'])
-            ok = lims == {'x': '_cone_angle_', 'y': '_cone_angle2_'} and len(conj) == 2
-            detail = None if ok else '%s with limits %s' % (astu.src(c), lims)
-            if ok:
-                # x = tan(thetaC) cos(phiC), y = tan(thetaC) sin(phiC)
-                ok, detail = _tangent_plane(rot, w, L)
-        rep.add('SAMPLING', mode + ':window-test', where(rot, w.get('l')), 'a point is accepted only when |x| < tan(_cone_angle_) and '
-                '|y| < tan(_cone_angle2_) with (x, y) = tan(thetaC) (cos phiC, sin phiC)', ok, detail)
-        g = _enclosing(pm, ifs[0], 'If') if ifs else None
-        okg = g is not None and 'isnormal' in astu.src(g['c']) and '_cone_angle2_' in astu.src(g['c']) and \
-            g.get('e') is not None and any(x['k'] == 'Break' for x in astu.walk(g['e']))
-        rep.add('SAMPLING', mode + ':window-only-when-given', where(rot, w.get('l')), 'the rejection applies when _cone_angle2_ is set; '
-                'otherwise the first sample is taken', okg)
+        _acceptance(rep, rot, L, R, w, mode)
     for m, (srcs, missing) in sorted(R.stale.items()):
         rep.add('SAMPLING', 'cache:' + m, where(rot), 'the cached data member %s (derived from %s) is refreshed or invalidated by every '
                 'function that writes its sources' % (m, sorted(srcs)), not missing,
@@ -1407,3 +1366,110 @@ def _species_test(c, part):
             if v is None or v != ((not req) or eq):
                 return False
     return True
+
+
+def _acceptance(rep, rot, L, R, w, mode):
+    """SAMPLING acceptance: the rejection loop is left exactly when no window is given or the sampled point lies inside it.
+    Decided on the leave-formula of the loop (rules/loopsem.py), whatever the loop form (while(true)/break, do/while(rejected), ...)"""
+    from ..rules import loopsem
+    phin, cthn = _sampling_roles(w)
+    dbl = {}
+
+    def res(e):
+        e = astu.strip_casts(e)
+        if e['k'] == 'Ref' and e.get('dk') == 'local':
+            if e['name'] in dbl:
+                return dbl[e['name']]
+            if e['name'] == cthn:
+                return Poly.sym('k')
+            if e['name'] == phin:
+                return Poly.sym('phiC')
+        if e['k'] == 'Call' and e['callee']['qn'] in ('sqrt', 'std::sqrt'):
+            inner = fa.ex(rot, e['args'][0], {}, 0)
+            if inner == Poly.const(1) - _sq('k'):
+                return Poly.sym('S')           # sin(thetaC) >= 0
+            raise AnalysisBroken('sqrt(%r) is not sin(thetaC)' % inner)
+        if e['k'] == 'Bin' and e['op'] == '/' and astu.src(astu.strip_casts(e['b'])) == cthn:
+            return fa.ex(rot, e['a'], {}, 0) * Poly.sym('1/k')
+        return None
+    fa = _FieldAlg(None, resolver=res)
+    tplane = Poly.sym('1/k') * Poly.sym('S')
+    want = {'x': tplane * Poly.sym('c:phiC'), 'y': tplane * Poly.sym('s:phiC')}
+
+    def on_assign(name, rhs, op, sem):
+        if name in (phin, cthn):
+            return
+        try:
+            val = fa.ex(rot, rhs, {}, 0)
+            if op == '*=':
+                val = dbl[name] * val
+            elif op != '=':
+                raise AnalysisBroken('compound assignment')
+            dbl[name] = val
+        except (AnalysisBroken, KeyError):
+            dbl.pop(name, None)
+
+    def role(e):
+        try:
+            v = fa.ex(rot, e, {}, 0)
+        except AnalysisBroken:
+            return None
+        for r, p in want.items():
+            if v == p:
+                return r
+        return None
+
+    def atom_of(e, sem):
+        if e['k'] == 'Call' and e['callee']['qn'] in ('std::isnormal', 'isnormal') and \
+                astu.is_this_member(astu.strip_casts(e['args'][0]), '_cone_angle2_'):
+            return ('atom', 'window given')
+        if e['k'] == 'Bin' and e['op'] in ('<', '<=', '>', '>='):
+            a, b, op = astu.strip_casts(e['a']), astu.strip_casts(e['b']), e['op']
+            def is_abs(x):
+                return x['k'] == 'Call' and x['callee']['qn'] in ('std::abs', 'fabs', 'std::fabs', 'abs')
+            if is_abs(b) and not is_abs(a):
+                a, b = b, a
+                op = {'<': '>', '<=': '>=', '>': '<', '>=': '<='}[op]
+            if is_abs(a):
+                r = role(a['args'][0])
+                lim = R.tan_of(b)
+                if r is not None and lim is not None:
+                    at = ('atom', '|%s| < tan(%s)' % (r, lim))
+                    return at if op in ('<', '<=') else loopsem.f_not(at)
+        return None
+
+    def decl_of(i):
+        d = L.decl.get(i)
+        if d is None:
+            return None
+        d = dict(d)
+        d['assigned'] = bool(L.assigns.get(i))
+        return d
+    pre_bool = {}
+    for i_, d_ in L.decl.items():
+        if d_.get('ty', '').strip() == 'bool' and 'init' in d_ and d_.get('l', 0) < w.get('l', 0):
+            i0 = astu.strip_casts(d_['init'])
+            if i0['k'] == 'Bool':
+                pre_bool[d_['name']] = bool(i0['v'])
+    sem = loopsem.LoopSem(w, decl_of, atom_of, on_assign, pre_bool)
+    try:
+        leave = sem.run()
+    except AnalysisBroken as ex:
+        rep.cannot_decide('SAMPLING', where(rot, w.get('l')), mode + ':acceptance: ' + str(ex))
+        return
+    if sem.opaque and any(a for a in loopsem.atoms(leave) if isinstance(a, str) and a.startswith('opaque:')):
+        rep.cannot_decide('SAMPLING', where(rot, w.get('l')), mode + ':acceptance: the loop is left under a condition this rule does '
+                          'not interpret: %s' % sorted(set(sem.opaque))[:3])
+        return
+    inside = loopsem.f_and(('atom', '|x| < tan(_cone_angle_)'), ('atom', '|y| < tan(_cone_angle2_)'))
+    expected = loopsem.f_or(loopsem.f_not(('atom', 'window given')), inside)
+    ok, cex = loopsem.equivalent_loop(sem, leave, expected, invariant=('window given',))
+    rep.add('SAMPLING', mode + ':acceptance', where(rot, w.get('l')),
+            'the sampling loop is left exactly when no window is given (_cone_angle2_ not set) or the point (x, y) = tan(thetaC) (cos '
+            'phiC, sin phiC) satisfies |x| < tan(_cone_angle_) and |y| < tan(_cone_angle2_): no rejected direction is used, no '
+            'accepted one is redrawn', ok,
+            None if ok else ['the loop is left when %s' % loopsem.show(leave),
+                             'e.g. with %s the loop %s, the window says %s' % (
+                                 ', '.join('%s%s' % ('' if v else 'not ', k) for k, v in sorted(cex.items())),
+                                 'is left' if loopsem.ev(leave, cex) else 'goes on',
+                                 'accept' if loopsem.ev(expected, cex) else 'reject')])
